@@ -34,7 +34,7 @@ TIERS = {
     "thorough": {"runs": 60000, "batch": 16, "timeout_s": 1800, "max_n": 40, "max_burn": 20, "shrink_budget": 160},
 }
 RULE = ("Configuration = sampler {mh, mhcustom with a deterministic contraction, _dummy1d} x nsamples 1-10 (quick) x "
-        "nburnout 0-6 x step size x dim 1-3 x f output {scalar, vector, tuple, constant, its own argument, a view of it, a stored tensor} x backward-only sampler options x parameters of f and of log p "
+        "nburnout 0-6 x step size x dim 1-3 x f output {scalar, vector, tuple, constant, its own argument, a view of it, a stored tensor, data-dependent branch that is disconnected from the parameters at some samples} x backward-only sampler options x parameters of f and of log p "
         "{explicit tensors, held by one of 14 EditableModule / nn.Module kinds, f and log p on the same object or on two} "
         "x some tensors not requiring grad x an extra tensor entering neither function x usage {forward, backward, "
         "graph-recording backward + second backward, linearity triple, peer failing at its k-th entry then retry, three successive plain backward passes}; in a quarter of the backward usages a peer first fails at its k-th entry INSIDE the backward pass (objects judged, pass repeated); in-place or pure custom step; non-float tuple component; explicit parameters computed from one another; only the start point requiring grad; backward pass under a caller-opened substitution; one torch RNG seed per run. The history of "
@@ -72,8 +72,8 @@ def draw_scenario(cs, cfg):
     sc["step"] = [0.5, 1.0, 0.2, 1.7][cs.draw(4, "step")]
     sc["valseed"] = cs.draw(1000, "valseed")
     sc["rng"] = cs.draw(100000, "rngseed")
-    sc["fkind"] = ["scalar", "vector", "tuple", "const", "identity", "view", "param", "tuple_bool"][
-        cs.weighted([4, 3, 3, 1, 1, 1, 1, 1], "fkind")]
+    sc["fkind"] = ["scalar", "vector", "tuple", "const", "identity", "view", "param", "tuple_bool", "branch"][
+        cs.weighted([4, 3, 3, 1, 1, 1, 1, 1, 2], "fkind")]
     sc["step_inplace"] = cs.bool("step_inplace", 1, 3)
     # explicit parameters computed from one another (b = b0 * (1 + 0.1 a)): each slot must get its own partial
     sc["dependent_params"] = cs.bool("dependent_params", 1, 3)
